@@ -390,8 +390,11 @@ def _in_location_order(features: Sequence[Any]) -> bool:
     return all(starts[i] <= starts[i + 1] for i in range(len(starts) - 1))
 
 
-def _state_clauses(record: Any) -> List[Tuple[str, bool, str]]:
-    """Clauses that must hold for the features the record currently lists, after any operation."""
+def _state_clauses(record: Any, retired: Sequence[Any] = ()) -> List[Tuple[str, bool, str]]:
+    """Clauses that must hold for the features the record currently lists, after any operation.
+    `retired`: candidate clusters / regions the record listed earlier and has removed since; a
+    parent link is stale when it still points at one of those (a link to an object the record
+    never listed - a temporary of candidate formation - is not this property's business)."""
     out = []
     kinds = [
         ("region", record.get_regions(), record.get_region, record.get_region_number,
@@ -428,12 +431,18 @@ def _state_clauses(record: Any) -> List[Tuple[str, bool, str]]:
     stale = []
     regions = list(record.get_regions())
     candidates = list(record.get_candidate_clusters())
+    def was_removed(parent: Any) -> bool:
+        return any(parent is old for old in retired)
+
     for proto in record.get_protoclusters():
         parent = proto.parent
-        if parent is not None and not any(parent is c and any(proto is p for p in c.protoclusters)
-                                          for c in candidates):
+        if parent is not None and was_removed(parent):
             stale.append(f"protocluster {location_parts(proto.location)} has parent "
-                         f"{parent!r} which is not a candidate cluster of the record listing it")
+                         f"{parent!r} which the record has removed")
+        elif parent is not None and any(parent is c for c in candidates) and \
+                not any(proto is p for p in parent.protoclusters):
+            stale.append(f"protocluster {location_parts(proto.location)} has parent {parent!r} "
+                         "which does not list it")
     for kind, features in (("candidate", candidates), ("subregion", list(record.get_subregions()))):
         for feature in features:
             parent = feature.parent
@@ -441,9 +450,9 @@ def _state_clauses(record: Any) -> List[Tuple[str, bool, str]]:
                 continue
             listed = [r for r in regions if r is parent
                       and any(feature is child for child in list(r.candidate_clusters) + list(r.subregions))]
-            if not listed:
+            if was_removed(parent) or (any(r is parent for r in regions) and not listed):
                 stale.append(f"{kind} {location_parts(feature.location)} has parent {parent!r} "
-                             "which is not a region of the record listing it")
+                             "which the record has removed or which does not list it")
     for gene in record.get_cds_features():
         if gene.region is not None and not any(gene.region is r for r in regions):
             stale.append(f"gene {location_parts(gene.location)} points to {gene.region!r} "
@@ -494,9 +503,11 @@ def _evaluate_history(case: Dict[str, Any]) -> Tuple[List[Tuple[str, bool, str]]
             record.add_cds_feature(make_gene(f"g{index}", gene[:2], gene[2], length))
     except Exception as err:  # pylint: disable=broad-except
         return [(NO_EXC, False, "while adding genes: " + describe_exception(err))], True
+    retired: List[Any] = []
     for position, op in enumerate(sequence):
         had_regions = bool(record.get_regions())
         areas_at_creation = None
+        listed_before = list(record.get_candidate_clusters()) + list(record.get_regions())
         try:
             if op.startswith("addP"):
                 record.add_protocluster(protos[int(op[4:])])
@@ -526,11 +537,13 @@ def _evaluate_history(case: Dict[str, Any]) -> Tuple[List[Tuple[str, bool, str]]
         except Exception as err:  # pylint: disable=broad-except
             clause = "creation-succeeds" if op != "createC" and not op.startswith("add") else NO_EXC
             return [(clause, False, f"operation {position} ({op}): " + describe_exception(err))], True
+        listed_now = list(record.get_candidate_clusters()) + list(record.get_regions())
+        retired.extend(old for old in listed_before if not any(old is new for new in listed_now))
     if areas_at_creation is not None:
         # the last operation (re-)created the regions: they must be the components of the areas
         results.append(("creation-succeeds", True, ""))
         results.extend(_region_clauses(record, areas_at_creation))
-    results.extend(_state_clauses(record))
+    results.extend(_state_clauses(record, retired))
     nontrivial = any(op.startswith("clear") or op.startswith("create") for op in case["ops"])
     return results, nontrivial
 
@@ -634,20 +647,35 @@ def _pinned_connect(arcs: Sequence[Sequence[int]], length: int, exact: bool) -> 
 
 
 def _model_areas(case: Dict[str, Any], exact: bool) -> List[List[int]]:
-    """The arcs of the areas create_regions will see for a layout case: the subregions, one
-    candidate per protocluster and one per chained group of protoclusters."""
+    """The arcs of the areas create_regions will see for a layout case: the subregions and the
+    candidate clusters of the protoclusters (no genes, so no hybrids): the span of every
+    core-overlap group (interleaved), the span of every extent-overlap group that is not a
+    core-overlap group (neighbouring), and every protocluster outside the core-overlap groups
+    (single).  Same coordinates are listed once (candidates are de-duplicated by coordinates)."""
     length = case["L"]
     arcs = [list(arc) for kind, arc in case["areas"] if kind == "s"]
     protos = [list(arc) for kind, arc in case["areas"] if kind == "c"]
-    arcs.extend(protos)
-    masks = [arc_mask(arc, length) for arc in protos]
-    pairs = [(a, b) for a in range(len(protos)) for b in range(a + 1, len(protos)) if masks[a] & masks[b]]
-    for group in components(len(protos), pairs):
-        if len(group) > 1:
-            if case["circ"]:
-                arcs.append(_mask_to_arc(_pinned_connect([protos[i] for i in group], length, exact), length))
-            else:
-                arcs.append([min(protos[i][0] for i in group), max(protos[i][1] for i in group)])
+    count = len(protos)
+    extents = [arc_mask(arc, length) for arc in protos]
+    cores = [arc_mask(_core_of(arc, length), length) for arc in protos]
+    pairs = [(a, b) for a in range(count) for b in range(a + 1, count)]
+    core_groups = [g for g in components(count, [p for p in pairs if cores[p[0]] & cores[p[1]]]) if len(g) > 1]
+    extent_groups = [g for g in components(count, [p for p in pairs if extents[p[0]] & extents[p[1]]])
+                     if len(g) > 1 and g not in core_groups]
+    candidates: List[List[int]] = []
+
+    def span(group: Sequence[int]) -> List[int]:
+        if case["circ"]:
+            return _mask_to_arc(_pinned_connect([protos[i] for i in group], length, exact), length)
+        return [min(protos[i][0] for i in group), max(protos[i][1] for i in group)]
+
+    for group in core_groups + extent_groups:
+        candidates.append(span(group))
+    absorbed = {i for group in core_groups for i in group}
+    candidates.extend(protos[i] for i in range(count) if i not in absorbed)
+    for arc in candidates:
+        if arc not in arcs[len([a for k, a in case["areas"] if k == "s"]):]:
+            arcs.append(arc)
     return arcs
 
 
@@ -734,8 +762,8 @@ def _is_f2(clause: str, case: Dict[str, Any]) -> bool:
         return False
     if not any(spans_origin(arc) for _, arc in case["areas"]):
         return False
-    if clause == "region-span-exact" and _some_span_inflated(case):
-        return True
+    if _some_span_inflated(case):
+        return True       # robust form of the class; the sweep model below pins it down further
     raises, sections, region_masks, arcs = _model_regions(case, exact=False)
     if clause == "creation-succeeds":
         return raises
